@@ -306,6 +306,20 @@ void module_close_all(void)
         }
     } while (progress);
 
+    /* What is left are back-end providers and the modules they depend
+     * on: unload those the same way, dependents first. */
+    do {
+        progress = 0;
+        for (node = set_first(&modules); node; node = next) {
+            next = set_next(node);
+            module = set_node_data(node);
+            if (module->rdepends.used)
+                continue;
+            set_remove(&modules, module, 0);
+            progress = 1;
+        }
+    } while (progress);
+
     /* Go through and remove any remaining modules. */
     for (node = set_first(&modules); node; node = next) {
         next = set_next(node);
